@@ -308,6 +308,7 @@ func TestVerif_C02_h3recv(t *testing.T) {
 	r := s.Rand()
 	n := verifh.N(900, 12000)
 	lens := []int{0, 1, 2, 5, 100, 511, 512, 513, 4095, 4096, 4097, 16383, 16384, 16385}
+	matrix := map[string]int{}
 	for c := 0; c < n; c++ {
 		bl := verifh.Pick(r, lens)
 		if r.Intn(3) == 0 {
@@ -600,10 +601,34 @@ func TestVerif_C02_h3recv(t *testing.T) {
 		if len(trailers) > 0 && mut == "none" {
 			s.Count("with-trailers")
 		}
+		// round 5: the matrix declared length {none, right, body longer (surplus), body shorter}
+		// x trailer section {no, yes}; every cell must be reached
+		if !isHead && (mut == "none" || mut == "cl-small" || mut == "cl-large") {
+			k := "undeclared"
+			switch {
+			case mut == "cl-small":
+				k = "surplus"
+			case mut == "cl-large":
+				k = "short"
+			case declared:
+				k = "declared"
+			}
+			k = "matrix:" + k + "/trailers=" + strconv.FormatBool(len(trailers) > 0)
+			s.Count(k)
+			matrix[k]++
+		}
 		if ninterim > 0 {
 			s.Count("interim")
 		}
 		s.Case(line, impl, propOK, "", len(segs) >= 2 && len(reads) >= 2 && len(body) > 0, human)
 	}
 	s.Finish()
+	for _, l := range []string{"undeclared", "declared", "surplus", "short"} {
+		for _, tr := range []string{"false", "true"} {
+			rare := (l == "surplus" || l == "short") && tr == "true" // a handful per quick run: required in the thorough tier only
+			if k := "matrix:" + l + "/trailers=" + tr; matrix[k] == 0 && (!rare || verifh.Thorough()) {
+				t.Errorf("lane h3recv never reached %q", k)
+			}
+		}
+	}
 }
